@@ -513,6 +513,37 @@ def propagatorsM (o : Ops α) (N : Nat) (expand ignore : Bool) (items : List (It
   if gates.length < items.length && !ignore then .error .measurement
   else propagators o N expand gates
 
+/-! ## (h) Histories on live gate objects: `targets` / `controls` are plain public attributes -/
+
+/-- what a user may do to the circuit's gate objects between evaluations -/
+inductive HistOp where
+  /-- `qc.gates[i].targets = t` -/
+  | setTargets (i : Nat) (t : List Nat)
+  /-- `qc.gates[i].controls = c` (`none`: `None`) -/
+  | setControls (i : Nat) (c : Option (List Nat))
+  /-- evaluate the circuit (any route: run, compute_unitary, propagators, stepping) -/
+  | eval
+
+def GateReq.setTargets {A : Type} (r : GateReq A) (t : List Nat) : GateReq A := { r with targets := t }
+
+def GateReq.setControls {A : Type} (r : GateReq A) (c : Option (List Nat)) : GateReq A :=
+  match c with
+  | none => { r with controls := [], controlsNone := true }
+  | some l => { r with controls := l, controlsNone := false }
+
+/-- the objects after one operation (an index outside the list raises IndexError in Python and changes nothing) -/
+def applyHist {A : Type} (gs : List (GateReq A)) : HistOp → List (GateReq A)
+  | .setTargets i t => gs.modify i (·.setTargets t)
+  | .setControls i c => gs.modify i (·.setControls c)
+  | .eval => gs
+
+/-- the answers of the evaluations of a history; `ev` is the evaluation route (a function of the objects'
+fields at that moment — there is no other state: no memo of `get_all_qubits`, no cached matrices) -/
+def runHist {A β : Type} (ev : List (GateReq A) → β) : List (GateReq A) → List HistOp → List β
+  | _, [] => []
+  | gs, .eval :: rest => ev gs :: runHist ev gs rest
+  | gs, op :: rest => runHist ev (applyHist gs op) rest
+
 /-! ## Exact scalars for the driver: ℤ[ζ₁₆][1/2] with the dyadic exponent kept per number -/
 
 structure CycD where
